@@ -60,6 +60,23 @@ def fixed_cases():
     add("c := mut 1.5; r := (c *= 2.0); (r, *c)", (3.0, 3.0), "float *=")
     add("c := mut 7.0; r := (c /= 2.0); (r, *c)", (3.5, 3.5), "float /=")
     add("c := mut 2.0; r := (c -= 0.5); (r, *c)", (1.5, 1.5), "float -=")
+    inf = float("inf")
+    add("c := mut 0.0; r := (c = 0.0 * (0.0 - 1.0)); (1.0 / r, 1.0 / *c)", (-inf, -inf), "storing -0.0 over 0.0 is a change")
+    add("c := mut 0.0; r := (c *= 0.0 - 1.0); (1.0 / r, 1.0 / *c)", (-inf, -inf), "0.0 *= -1.0 stores -0.0")
+    add("c := mut (0.0 * (0.0 - 1.0)); r := (c += 0.0); (1.0 / r, 1.0 / *c)", (inf, inf), "-0.0 += 0.0 stores +0.0")
+    add("c := mut (0.0 * (0.0 - 1.0)); r := (c -= 0.0 * (0.0 - 1.0)); (1.0 / r, 1.0 / *c)", (inf, inf), "-0.0 -= -0.0 stores +0.0")
+    add("c := mut [0.0]; c = [0.0 * (0.0 - 1.0)]; 1.0 / (*c)[0]", -inf, "storing [-0.0] over [0.0] is a change")
+    add("c := mut (0.0, 1); c = (0.0 * (0.0 - 1.0), 1); 1.0 / (*c).0", -inf, "storing (-0.0, 1) over (0.0, 1) is a change")
+    add("c := mut [1]; c = [0; 0]; d := c; d = []; (*c == [], *c)", (True, []), "storing an empty array over an array")
+    add("c := mut 5; r := (c = 5); d := c; d += 0; (r, *c)", (5, 5), "storing an equal value")
+    # the run-time type of a cell is its DECLARED type, whatever it holds at the moment
+    add("a := mut int|float 1; f := (v: any) -> int { return if x: mut int = v { 1 } else { 2 } }; f(a)", 2, "mut int|float holding an int is not a mut int")
+    add("a := mut any 1; f := (v: any) -> int { return match v { x: mut int => 1, y: mut any => 2, => 3, } }; f(a)", 2, "mut any holding an int is not a mut int")
+    add("a := mut int|float 1; b := mut 1; f := (v: any) -> int { return if x: mut int = v { 1 } else { 2 } }; (f(a), f(b))", (2, 1), "declared type decides")
+    add("a := mut int|float 1; f := (v: any) -> any { if x: mut int = v { a = 2.5; return *x } return 0 - 1 }; f(a)", -1,
+        "a narrowed alias of a wider cell would let a float into a mut int")
+    add("a := mut int|float 1; cells := [a]~ ? mut int $]; std.len(cells)", 0, "type filter on a cell of wider type", mode="std")
+    add("a := mut int|float 1; f := (v: mut int | mut (int|float)) -> int { return match v { x: mut int => 1, => 2, } }; f(a)", 2, "match on the declared cell type")
     add("c := mut int|float 1; c = 2.5; *c", 2.5, "cell of union type takes either member")
     add("c := mut int|float 1; c = 2.5; c = 3; *c", 3, "cell of union type takes either member, back again")
     add("c := mut any 1; c = \"s\"; *c", "s", "cell of type any")
